@@ -21,6 +21,7 @@ pub fn scenarios() -> Vec<Scenario> {
         scn!(scenario_claimed_identifier, 2),
         scn!(scenario_signer_checks_own_entry, 3),
         scn!(scenario_identity_commitment, 1),
+        crate::wrap::scn_sign_aggregate(2),
     ]
 }
 
